@@ -148,6 +148,14 @@ class Merge(Expr):
             if isinstance(e, _DelayedExpr):
                 continue
 
+            if not isinstance(e, Elemwise) and any(
+                x._name == self._name for x in e.walk()
+            ):
+                # Not computed row by row from the join result (a reduction,
+                # a cumulative or shifted value ...): evaluated on one input
+                # of the join it means something else
+                return None
+
             dependencies = e.dependencies()
             stack.extend(dependencies)
             if any(d._name == self._name for d in dependencies):
